@@ -229,7 +229,7 @@ Sites == {"top", "list", "input", "notif", "nested", "case", "cfgfalse"}
 ImpD == [x \in {"d"} |-> "d"]
 ImpU == [x \in {"u"} |-> "u"]
 UsesProg(k, def, s1, s2, mut) ==
-  LET ref == IF def \in {"d", "ds"} THEN Uses("d", "g1") ELSE IF def = "dd" THEN Uses("dd", "g1") ELSE Uses("", "g1")
+  LET ref == IF def \in {"d", "ds", "perfile"} THEN Uses("d", "g1") ELSE IF def = "dd" THEN Uses("dd", "g1") ELSE Uses("", "g1")
       \* def = "wrap": u's own g1 wraps d's grouping of the same name
       \* u has a g2 of its own: names inside g1 must not bind to it when g1 lives in d
       uOwn == << TddOf("u"), Stmt("identity", "local", <<>>), Stmt("grouping", "g2", << Leaf("u2") >>) >>
